@@ -7,7 +7,7 @@
 EXTENDS TraceBatch, FiniteSets
 
 CONSTANTS MaxId, EndT, WarmT, Prios, RelDelays, AbsTimes, BadKinds, MaxOps, Strategy,
-          Bounds, MaxInits, AllowFaults, StratOps, EndRepOps, MaxCmds, Cmds,
+          Bounds, MaxInits, AllowFaults, StratOps, HStopOps, EndRepOps, MaxCmds, Cmds,
           PrintStats    \* BOOLEAN: print what the simulation statistics must report at quiescent observations (C11)
 VARIABLES rs, rep, clock, ev, pending, bound, incl, mode, seg, executed, prog, initOps,
           ann, due, notif, nrep, premature, ncmd, strat, op,
